@@ -54,6 +54,27 @@ theorem original_weave (cs : List Char) (pos : Nat) (spans : List (Nat × Nat)) 
     rw [← ih b h4, List.append_assoc]
     exact drop_split cs pos a b h1 h2
 
+theorem subNodeT_weave (cs : List Char) (tpl : Template) (pos : Nat) (spans : List (Nat × Nat)) :
+    subNodeT cs tpl pos spans = weave (gaps cs pos spans) (spans.map (fun p => expandT tpl ((cs.take p.2).drop p.1))) := by
+  induction spans generalizing pos with
+  | nil => simp [subNodeT, gaps, weave]
+  | cons p more ih =>
+    obtain ⟨a, b⟩ := p
+    simp only [subNodeT, gaps, List.map_cons, weave, ih b]
+
+/-- a template without reference to the match is a literal replacement -/
+theorem expandT_literal (l m : List Char) : expandT [some l] m = l := by simp [expandT]
+
+theorem expandT_whole (m : List Char) : expandT [none] m = m := by simp [expandT]
+
+theorem subNodeT_literal (cs l : List Char) (pos : Nat) (spans : List (Nat × Nat)) :
+    subNodeT cs [some l] pos spans = subNode cs l pos spans := by
+  induction spans generalizing pos with
+  | nil => rfl
+  | cons p more ih =>
+    obtain ⟨a, b⟩ := p
+    simp only [subNodeT, subNode, ih b, expandT_literal]
+
 /-- a token with its characters erased: what stays in place whatever is replaced -/
 def Tok.erase : Tok → Tok
   | .txt h s _ => .txt h s []
@@ -97,5 +118,18 @@ theorem countMatches_indexed (spans : List (List (Nat × Nat))) (i : Nat) :
     simp only [countMatches, List.map_cons, List.sum_cons, indexed, List.length_append, List.length_map]
     rw [← ih (i + 1)]
     rfl
+
+theorem replaceAllT_shape (tpl : Template) (ts : Toks) (sps : List (List (Nat × Nat))) :
+    (replaceAllT tpl ts sps).map Tok.erase = ts.map Tok.erase := by
+  induction ts generalizing sps with
+  | nil => rfl
+  | cons t rest ih =>
+    cases t with
+    | txt h s cs =>
+      cases sps with
+      | nil => simp [replaceAllT, Tok.erase, ih]
+      | cons sp sps => simp [replaceAllT, Tok.erase, ih]
+    | op k l h => simp [replaceAllT, Tok.erase, ih]
+    | cl => simp [replaceAllT, Tok.erase, ih]
 
 end Odf.Replace
